@@ -215,6 +215,18 @@ def tv_events(rng, tier):
                 bler.reset()
                 c = counters(ber, bler)
                 evs.append({"ev": "Reset", "tid": tid, "c_tb": c[0], "c_eb": c[1], "c_tbl": c[2], "c_ebl": c[3]})
+        # an empty batch and a batch of zero-length items (the trailing slice of an evaluation loop): a metric may reject them, but a value it
+        # returns is the rate of no errors among no bits / blocks - zero, not NaN - and the accumulators stay as they are
+        if not none_mode and not cplx:
+            for shp0 in ((0, 2 * B), (3, 0)):
+                X0 = torch.zeros(shp0, dtype=dtype if dtype != torch.complex64 else torch.float32)
+                try:
+                    b1, b2 = ber(X0, X0.clone()), bler(X0, X0.clone())
+                except Exception:
+                    continue
+                c = counters(ber, bler)
+                evs.append({"ev": "Forward", "tid": tid, "x": [], "y": [], "xi": [], "yi": [], "B": B, "ber5": v5(b1), "bler5": v5(b2), "ber5s": v5(b1), "bler5s": v5(b2),
+                            "c_tb": c[0], "c_eb": c[1], "c_tbl": c[2], "c_ebl": c[3], "sum5": -1, "none": [-1], "form": "empty input %s" % (shp0,)})
     # benchmark helpers on 1-D data whose length is a multiple of the block size
     for _ in range(60 if tier == "quick" else 400):
         B = rng.choice([1, 2, 4, 5])
